@@ -44,7 +44,7 @@ from xsim.probe import SIM
 PID = "C11"
 LEVEL = "exploration"
 TIERS = {
-    "quick": {"runs": 2400, "batch": 8, "timeout_s": 600, "max_ops": 14, "shrink_budget": 120, "schedules": 2},
+    "quick": {"runs": 4800, "batch": 8, "timeout_s": 600, "max_ops": 14, "shrink_budget": 120, "schedules": 2},
     "thorough": {"runs": 60000, "batch": 16, "timeout_s": 1800, "max_ops": 22, "shrink_budget": 250, "schedules": 3},
 }
 RULE = ("Program = (dtype in {float64, float32, complex128}; a hierarchy of 1-4 dynamically created operator classes "
@@ -104,8 +104,12 @@ def draw_program(cs, cfg):
                 defines.append(m)
         inherited = set(classes[parent]["all"]) if parent >= 0 else set()
         allm = sorted(inherited | set(defines))
+        # a class whose own _mv is not recorded by autograd (runs under no_grad / through numpy): the adjoint trick
+        # cannot work for it, so without _rmv its adjoint products must be REJECTED - never answered with wrong numbers
+        nodiff = ("_mv" in defines) and cs.bool("nodiff_mv", 1, 8)
+        nodiff_eff = nodiff if "_mv" in defines else (parent >= 0 and classes[parent]["nodiff_eff"])
         classes.append({"parent": parent, "defines": defines, "has_mv": "_mv" in allm, "all": allm,
-                        "shape_list": cs.bool("shape_as_list", 1, 3)})
+                        "shape_list": cs.bool("shape_as_list", 1, 3), "nodiff": nodiff, "nodiff_eff": nodiff_eff})
     P["classes"] = classes
     inst = [i for i, c in enumerate(classes) if c["has_mv"]]
     abst = [i for i, c in enumerate(classes) if not c["has_mv"]]
@@ -136,7 +140,8 @@ def draw_program(cs, cfg):
                     m = draw_mat(herm=herm)
                     ops.append({"op": "inst", "cls": c, "mat": m, "flag": herm, "valid": True})
                     pool.append({"p": m["p"], "q": m["q"], "batch": tuple(m["batch"]), "kind": "user", "leaf": True,
-                                 "jac": False})
+                                 "jac": False,
+                                 "taint": bool(classes[c]["nodiff_eff"] and "_rmv" not in classes[c]["all"])})
                 elif bad == 1:
                     m = draw_mat()
                     m["q"] = m["p"] + 1
@@ -182,7 +187,7 @@ def draw_program(cs, cfg):
                 continue
             if e == 0:
                 ops.append({"op": "H", "i": i, "valid": True})
-                pool.append({"p": a["q"], "q": a["p"], "batch": a["batch"], "kind": "H", "leaf": False, "jac": a["jac"]})
+                pool.append({"p": a["q"], "q": a["p"], "batch": a["batch"], "kind": "H", "leaf": False, "jac": a["jac"], "taint": a.get("taint", False)})
             elif e in (1, 2, 3, 4):
                 name = {1: "matmul", 2: "add", 3: "sub", 4: "rsub"}[e]
                 want_bad = cs.bool("badshape", 1, 8)
@@ -200,28 +205,29 @@ def draw_program(cs, cfg):
                 if not cands:
                     ops.append({"op": "H", "i": i, "valid": True})
                     pool.append({"p": a["q"], "q": a["p"], "batch": a["batch"], "kind": "H", "leaf": False,
-                                 "jac": a["jac"]})
+                                 "jac": a["jac"], "taint": a.get("taint", False)})
                 else:
                     j = cands[cs.draw(len(cands), "j")]
                     b = pool[j]
                     ops.append({"op": name, "i": i, "j": j, "valid": not want_bad})
                     if not want_bad:
                         pool.append({"p": a["p"], "q": b["q"], "batch": bcast(a["batch"], b["batch"]), "kind": name,
-                                     "leaf": False, "jac": a["jac"] or b["jac"]})
+                                     "leaf": False, "jac": a["jac"] or b["jac"],
+                                     "taint": a.get("taint", False) or b.get("taint", False)})
             elif e in (5, 6):
                 f = [2, -1, 0.5, -1.5, 3, 0][cs.draw(6, "scalar")]
                 ops.append({"op": "mul" if e == 5 else "rmul", "i": i, "f": f, "valid": True})
-                pool.append({"p": a["p"], "q": a["q"], "batch": a["batch"], "kind": "mul", "leaf": False, "jac": a["jac"]})
+                pool.append({"p": a["p"], "q": a["q"], "batch": a["batch"], "kind": "mul", "leaf": False, "jac": a["jac"], "taint": a.get("taint", False)})
             elif e == 10 and a["p"] == a["q"]:
                 # one operator object combined with its own adjoint: A + A.H, A - A.H, A.H - A
                 ops.append({"op": "selfcomb", "i": i, "how": cs.draw(3, "selfcomb"), "valid": True})
-                pool.append({"p": a["p"], "q": a["p"], "batch": a["batch"], "kind": "selfcomb", "leaf": False, "jac": a["jac"]})
+                pool.append({"p": a["p"], "q": a["p"], "batch": a["batch"], "kind": "selfcomb", "leaf": False, "jac": a["jac"], "taint": a.get("taint", False)})
             elif e == 10:
                 ops.append({"op": "H", "i": i, "valid": True})
-                pool.append({"p": a["q"], "q": a["p"], "batch": a["batch"], "kind": "H", "leaf": False, "jac": a["jac"]})
+                pool.append({"p": a["q"], "q": a["p"], "batch": a["batch"], "kind": "H", "leaf": False, "jac": a["jac"], "taint": a.get("taint", False)})
             elif e == 7:
                 ops.append({"op": "aah", "i": i, "valid": True})
-                pool.append({"p": a["p"], "q": a["p"], "batch": a["batch"], "kind": "aah", "leaf": False, "jac": a["jac"]})
+                pool.append({"p": a["p"], "q": a["p"], "batch": a["batch"], "kind": "aah", "leaf": False, "jac": a["jac"], "taint": a.get("taint", False)})
             elif e == 8:
                 dense_sq = [j for j, b in enumerate(pool) if b["kind"] == "dense" and a["kind"] == "dense" and
                             a["q"] == b["p"] and a["p"] == b["q"] and a["p"] > 1 and bcast(a["batch"], b["batch"]) is not None
@@ -240,7 +246,8 @@ def draw_program(cs, cfg):
             i = len(pool) - 1 - cs.draw(min(len(pool), 4), "ai") if cs.bool("recent", 2, 3) else cs.draw(len(pool), "ai")
             a = pool[i]
             prod = PRODUCTS[cs.weighted([3, 3, 3, 3, 2], "prod")]
-            rec = {"op": "apply", "i": i, "prod": prod, "nograd": cs.bool("nograd", 1, 3), "seed": cs.draw(1000, "xseed")}
+            rec = {"op": "apply", "i": i, "prod": prod, "nograd": cs.bool("nograd", 1, 3), "seed": cs.draw(1000, "xseed"),
+                   "may_raise": bool(a.get("taint", False))}
             if prod != "fullmatrix":
                 inner = a["q"] if prod in ("mv", "mm") else a["p"]
                 bad = cs.weighted([10, 1, 1], "xbad")       # 0 valid, 1 wrong inner dimension, 2 batch mismatch
@@ -321,6 +328,11 @@ def _u_init(self, mat, is_hermitian=False):
     shape = list(mat.shape) if getattr(type(self), "_shape_as_list", False) else mat.shape
     LinearOperator.__init__(self, shape=shape, is_hermitian=is_hermitian, dtype=mat.dtype, device=mat.device)
     self.mat = mat
+    if isinstance(shape, list):
+        # the list is the caller's: it goes on using it (for the next, larger operator); this operator must not follow
+        shape[-2] += 2
+        shape[-1] += 3
+        SIM.count("reach.caller_edits_its_shape_list")
 
 
 def _u_mv(self, x):
@@ -330,6 +342,11 @@ def _u_mv(self, x):
         shape = torch.broadcast_shapes(self.mat.shape[:-2], x.shape[:-1]) + (self.mat.shape[-2],)
         return x.new_zeros(shape)
     return torch.matmul(self.mat, x.unsqueeze(-1)).squeeze(-1)
+
+
+def _u_mv_nodiff(self, x):
+    with torch.no_grad():
+        return _u_mv(self, x)
 
 
 def _u_rmv(self, x):
@@ -366,6 +383,8 @@ def build_classes(P):
     for i, c in enumerate(P["classes"]):
         parent = LinearOperator if c["parent"] < 0 else out[c["parent"]]
         ns = {m: UMETHODS[m] for m in c["defines"]}
+        if c.get("nodiff"):
+            ns["_mv"] = _u_mv_nodiff
         if c["parent"] < 0:
             ns["__init__"] = _u_init
         ns["_shape_as_list"] = bool(c.get("shape_list"))
@@ -679,7 +698,11 @@ def execute(P, pre):
             if op["valid"] is None:
                 pass
             elif op["valid"]:
-                if err is not None:
+                if err is not None and k == "apply" and op.get("may_raise") and isinstance(err, RuntimeError):
+                    # an operator built on a product that autograd cannot differentiate, without _rmv: a rejection
+                    # is the right answer wherever the adjoint of that leaf is needed (a wrong value never is)
+                    SIM.count("reach.adjoint_of_nondifferentiable_mv_rejected")
+                elif err is not None:
                     V("valid_rejected", "raised %s: %s" % (type(err).__name__, str(err)[:300]))
                     if k not in ("apply", "query"):
                         # keep pool indices aligned: the body cannot continue meaningfully
@@ -738,7 +761,7 @@ def execute(P, pre):
                           ("" if not isinstance(res, torch.Tensor) else " and returned a tensor of shape %s" %
                            (tuple(res.shape),)))
             obs.append(o)
-    return {"prelude": prelog, "obs": obs, "viol": viol, "events": SIM.seq}
+    return {"prelude": prelog, "obs": obs, "viol": viol, "events": SIM.seq, "counters": dict(SIM.counters)}
 
 
 # ----------------------------------------------------------- forked execution
@@ -838,6 +861,8 @@ def run(cs, cfg):
     # ---- statistics / reach
     body = outs[0]["obs"]
     cnt("ops", len(body))
+    for k_, v_ in outs[0].get("counters", {}).items():
+        cnt(k_, v_)
     napply_valid = 0
     sig_pairs = []
     for o, op in zip(body, P["ops"]):
